@@ -301,7 +301,7 @@ theorem honest_chain_accepted (fuel : Nat) (md : Metadata)
     (layout : Layout) (rs : List StepRecord) (inspLinks : Dict Str Link) (tr : List (List Str)) (s : Link)
     (hd : md.NamesDistinct)
     (hgate : gate w md keys params = .ok layout)
-    (hsteps : HonestSteps w layout dir layout.steps rs)
+    (hsteps : HonestSteps (fun md' keys' dir' name' => verify gm w fuel md' keys' dir' none name') w layout dir layout.steps rs)
     (hdistinct : (rs.map (·.name)).Nodup)
     (hrules : ∀ items, stepItems layout = .ok items → verifyAllItemRules gm (linksArts (linksOf rs)) items = .ok ())
     (hinsp : runAllInspections w layout.inspect [] = (.ok inspLinks, tr))
